@@ -201,6 +201,11 @@ func c06Exprs(sh c06shape, thorough bool) []c06expr {
 							tb{"nested-both", &Quant{All: innerAll, Sel: []string{V}, Mode: BindBoth, Idx: "j", Val: "y", Body: &Bin{Or: true, L: &Match{Sel: []string{"y"}, Op: OpEq, Lit: "1"}, R: &Match{Sel: []string{"j"}, Op: OpEq, Lit: "9"}}}},
 						)
 					}
+					for _, innerAll := range []bool{false, true} {
+						// depth 3: y is rooted at the OUTER V; the innermost quantifier binds the name V again (over the outer collection); y keeps its meaning
+						tbs = append(tbs, tb{"depth3-innermost-rebinds-outermost-name", &Quant{All: innerAll, Sel: []string{V}, Mode: BindValue, Val: "y",
+							Body: &Quant{All: false, Sel: S, Mode: BindValue, Val: V, Body: &Match{Sel: []string{"y"}, Op: OpEq, Lit: "1"}}}})
+					}
 					tbs = append(tbs, tb{"is-empty", &Match{Sel: []string{V}, Op: OpEmpty}})
 				} else {
 					vb := sh.body(V)
